@@ -95,7 +95,7 @@ Theorem C03_step_accounting :
          1 <= nx ->
          spec_step c st nx o = Some r ->
          Permutation (created c nx) (vis st ++ D ++ L) ->
-         Permutation (created c (s_nx r)) (vis (s_st r) ++ (D ++ drops (s_evs r)) ++ L ++ leak_of c st o).
+         Permutation (created c (s_nx r)) (vis (s_st r) ++ (D ++ drops (s_evs r)) ++ L ++ leak_of c st nx o).
 Proof. exact step_own. Qed.
 
 Theorem C03_history_accounting :
